@@ -28,7 +28,8 @@ type C12Case struct {
 	// calling template defines a macro of its own under the first library macro's plain name
 	Shadow bool `json:"shadow,omitempty"`
 	// Style: how the macro names are spelled: 0 as generated (m0, m1, ...), 1 camelCase (renderM0),
-	// 2 leading underscore (_m0), 3 upper case (M0), 4 with digits and underscores (m0_2x)
+	// 2 leading underscore (_m0), 3 upper case (M0), 4 with digits and underscores (m0_2x), 5 the names of
+	// parameters and caller variables (m0 -> p, m1 -> q, ...)
 	Style int `json:"style,omitempty"`
 }
 
@@ -50,6 +51,13 @@ func c12Rename(c C12Case) C12Case {
 			return "_" + n
 		case 3:
 			return strings.ToUpper(n)
+		case 5:
+			// the names that parameters and the caller's variables have (m0 -> p, m1 -> q, ...): a
+			// parameter or variable named like a visible macro is still the parameter / variable
+			if i := int(n[len(n)-1] - '0'); len(n) == 2 && n[0] == 'm' && i >= 0 && i < len(c12ParamNames) {
+				return c12ParamNames[i]
+			}
+			return n + "_2x"
 		default:
 			return n + "_2x"
 		}
@@ -444,7 +452,7 @@ func genC12(t *rapid.T) (C12Case, map[string]bool) {
 		c.Macros = append(c.Macros, g.macro(i, c.Macros))
 	}
 	c.Shadow = g.pick(3, "shadow") == 0
-	c.Style = []int{0, 0, 0, 1, 2, 3, 4}[g.pick(7, "namestyle")]
+	c.Style = []int{0, 0, 0, 1, 2, 3, 4, 5, 5}[g.pick(9, "namestyle")]
 	c.Wrap = g.pick(3, "wrap") == 0
 	if c.Wrap {
 		g.stats["called-from-another-templates-macro"] = true
